@@ -893,3 +893,116 @@ def gen_latename_schema(rng: random.Random, idx: int) -> dict:
         src = PRELUDE + "\n".join(L) + "\n"
         tags.add("scope:module")
     return {"src": src, "module": module, "tags": sorted(tags), "defloc": "latename:" + form, "idx": idx, "template": form}
+
+
+# ---------------------------------------------------------------------------
+# family "defaults": default values that the generators have to mention in the generated text
+# (omit_default comparisons, skip_defaults-like options): every kind of default object must be
+# referred to through the namespace, never through its repr
+# ---------------------------------------------------------------------------
+
+DEFAULT_ITEMS = [
+    ("int", "1"), ("str", "'s'"), ("float", "1.5"), ("bool", "True"), ("None", "None"), ("bytes", "b'x'"),
+    ("pathlib.PurePosixPath", "pathlib.PurePosixPath('/a')"), ("pathlib.Path", "pathlib.Path('/a/b')"),
+    ("ipaddress.IPv4Address", "ipaddress.IPv4Address('1.2.3.4')"), ("uuid.UUID", "uuid.UUID(int=5)"),
+    ("decimal.Decimal", "decimal.Decimal('1.25')"), ("fractions.Fraction", "fractions.Fraction(1, 3)"),
+    ("datetime.date", "datetime.date(2020, 1, 2)"), ("datetime.timedelta", "datetime.timedelta(seconds=90)"),
+    ("DE", "DE.A"), ("DF", "DF.A | DF.B"), ("DS", "DS_OBJ"), ("DN", "DN(1, 's')"), ("DC", "DC(2)"),
+    ("FrozenSet[int]", "frozenset([1])"), ("List[int]", "[1, 2]"), ("Dict[str, int]", "{'a': 1}"), ("float", "float('nan')"),
+    ("Tuple[int, str]", "(1, 's')"),
+]
+
+DEFAULTS_DECLS = """class DE(enum.Enum):
+    A = 'a'
+    B = 'b'
+class DF(enum.Flag):
+    A = 1
+    B = 2
+class DS(SerializableType):
+    def __init__(self, v=1): self.v = v
+    def __eq__(self, o): return type(o) is DS and o.v == self.v
+    def __hash__(self): return hash(self.v)
+    def _serialize(self): return self.v
+    @classmethod
+    def _deserialize(cls, value): return cls(value)
+DS_OBJ = DS(7)
+class DN(NamedTuple):
+    a: int
+    b: str
+@dataclass(frozen=True)
+class DC(DataClassDictMixin):
+    x: int = 0
+"""
+
+
+def gen_defaults_schema(rng: random.Random, idx: int) -> dict:
+    module = f"c17d_{idx}"
+    tags = set()
+    local = rng.random() < 0.25
+    L = [DEFAULTS_DECLS]
+    mixin = rng.choice(MIXINS[:4])
+    entry = rng.choice(["mixin", "mixin", "codec", "both"])
+    where = rng.choice(["config", "config", "dialect-config", "dialect-call", "dialect-codec"])
+    tags |= {"defaults-entry:" + entry, "omit_default:" + where}
+    fields = []
+    nf = rng.choice([2, 3, 4, 5])
+    for i in range(nf):
+        shape = rng.choice(["tuple", "tuple", "tuple", "tuple1", "nested-tuple", "vartuple", "scalar", "optional-tuple", "empty-tuple"])
+        items = [rng.choice(DEFAULT_ITEMS) for _ in range(rng.choice([1, 2, 3]))]
+        if shape == "scalar":
+            t, v = items[0]
+        elif shape == "tuple1":
+            t, v = f"Tuple[{items[0][0]}]", f"({items[0][1]},)"
+        elif shape == "nested-tuple":
+            t = f"Tuple[int, Tuple[{', '.join(x[0] for x in items)}]]"
+            v = f"(1, ({', '.join(x[1] for x in items)},))"
+        elif shape == "vartuple":
+            t, v = f"Tuple[{items[0][0]}, ...]", f"({items[0][1]}, {items[0][1]})"
+        elif shape == "optional-tuple":
+            t = f"Optional[Tuple[{', '.join(x[0] for x in items)}]]"
+            v = f"({', '.join(x[1] for x in items)},)"
+        elif shape == "empty-tuple":
+            t, v = "Tuple[()]", "()"
+        else:
+            t = f"Tuple[{', '.join(x[0] for x in items)}]"
+            v = f"({', '.join(x[1] for x in items)},)"
+        tags.add("default-shape:" + shape)
+        for x in items:
+            tags.add("default-item:" + x[0])
+        mutable = any(k in v for k in ("[1, 2]", "{'a': 1}")) and shape == "scalar"
+        if rng.random() < 0.5 and not mutable:
+            fields.append(f"    f{i}: {t} = {v}")
+        else:
+            fields.append(f"    f{i}: {t} = field(default_factory=lambda: {v})")
+    cfg = []
+    if where == "config":
+        cfg = ["    class Config(BaseConfig):", "        omit_default = True"]
+        if rng.random() < 0.4:
+            cfg.append("        code_generation_options = [" + rng.choice(["TO_DICT_ADD_OMIT_NONE_FLAG", "ADD_DIALECT_SUPPORT", "TO_DICT_ADD_BY_ALIAS_FLAG"]) + "]")
+    else:
+        L.append("class OD(Dialect):\n    omit_default = True")
+        if where == "dialect-config":
+            cfg = ["    class Config(BaseConfig):", "        dialect = OD"]
+        elif where == "dialect-call":
+            cfg = ["    class Config(BaseConfig):", "        code_generation_options = [ADD_DIALECT_SUPPORT]"]
+        L.append("DIALECTS.append(OD)")
+    plain = entry == "codec" or where == "dialect-codec"
+    base = "" if plain else f"({mixin})"
+    L.append("@dataclass\nclass H" + base + ":\n" + "\n".join(fields + (cfg if not plain or where == "config" else [])))
+    L.append("MAKE['H'] = lambda: H()")
+    if not plain:
+        L.append("ROOTS.append(H)")
+    if plain or entry == "both":
+        dd = "OD" if where.startswith("dialect") else "None"
+        for kind in rng.sample(["basic", "json", "orjson", "msgpack", "yaml"], rng.choice([1, 2])):
+            L.append(f"CODECS.append(({kind!r}, H, MAKE['H'], {dd}))")
+    L.append("CLASSES.extend([H, DE, DF, DS, DN, DC])")
+    if "nan" not in "".join(fields):
+        L.append("ROUNDTRIP.append(H)")
+    if local:
+        src = PRELUDE + wrap_local(L, [])
+        tags.add("scope:function")
+    else:
+        src = PRELUDE + "\n".join(L) + "\n"
+        tags.add("scope:module")
+    return {"src": src, "module": module, "tags": sorted(tags), "defloc": "defaults:" + where, "idx": idx, "template": where}
